@@ -479,6 +479,12 @@ func newStreamReaderWithConvert[T any](origin iStreamReader, convert func(any) (
 //	fmt.Println(s) // Output: val_1
 func StreamReaderWithConvert[T, D any](sr *StreamReader[T], convert func(T) (D, error)) *StreamReader[D] {
 	c := func(a any) (D, error) {
+		if a == nil {
+			// a nil chunk of a stream whose element type is an interface type: recvAny hands it over
+			// as a nil any, for which the assertion below never holds
+			var t T
+			return convert(t)
+		}
 		return convert(a.(T)) // nolint: byted_interface_check_golintx
 	}
 
